@@ -98,8 +98,21 @@ fn source_line_text(file: &str, line: u32) -> String {
     let cands = [file.to_string(), format!("{root}/{file}")];
     for c in cands {
         if let Ok(s) = std::fs::read_to_string(&c) {
-            if let Some(l) = s.lines().nth(line.saturating_sub(1) as usize) {
-                return l.split_whitespace().collect::<Vec<_>>().join(" ");
+            let lines: Vec<&str> = s.lines().collect();
+            let i = line.saturating_sub(1) as usize;
+            if let Some(l) = lines.get(i) {
+                let norm = |x: &str| x.split_whitespace().collect::<Vec<_>>().join(" ");
+                let mut t = norm(l);
+                // a short line (`.unwrap(),`, `unimplemented!();`) does not identify a site: add context
+                let mut j = i;
+                while t.len() < 40 && j > 0 {
+                    j -= 1;
+                    let p = norm(lines[j]);
+                    if !p.is_empty() {
+                        t = format!("{p} {t}");
+                    }
+                }
+                return t;
             }
         }
     }
